@@ -204,6 +204,8 @@ func main() {
 				fmt.Println(c18.StopEnumSize())
 			} else if *scenario == "stopenum2" {
 				fmt.Println(c18.StopEnum2Size())
+			} else if *scenario == "reqpair" {
+				fmt.Println(c18.ReqPairSize())
 			} else {
 				fmt.Println(c18.EnumSize())
 			}
